@@ -481,14 +481,54 @@ def random_disjoint(rng, num=None, curved=False, center=(0, 0), size=10.0, ncomp
     return {"t": "disjoint", "parts": parts}, {"family": "disjoint", "ncomp": ncomp}
 
 
+def random_nested_rings(rng, num=None, curved=False, center=(0, 0), size=10.0):
+    """Disjoint shape with four nesting levels: a ring (outer minus hole) and, inside its hole,
+    an island ring (island minus pit)."""
+    num = num or rng.choice(["int", "frac", "float"])
+    if curved:
+        num = "float"
+    scale = size if num != "int" else max(size, 400.0)
+    cx, cy = float(center[0]), float(center[1])
+    if num == "int":
+        cx, cy = round(cx), round(cy)
+    radii = [scale, scale * 0.5, scale * 0.25, scale * 0.12]
+    parts = []
+    for level, r in enumerate(radii):
+        cw = level % 2 == 1
+        if curved and rng.random() < 0.5:
+            spec = {"t": "circle", "num": "float", "r": repr(r * 0.9), "c": [repr(cx), repr(cy)], "n": rng.choice([5, 8, 12])}
+            if cw:
+                spec["cw"] = True
+        else:
+            grid = grid_for(rng, num)
+            if grid is not None and grid * r < 48:
+                grid = int(math.ceil(48 / r))
+            verts = None
+            for _ in range(40):
+                verts = convex_polygon(rng, rng.randint(5, 8), (cx, cy), r * 0.9, grid)
+                if verts:
+                    break
+            if verts is None:
+                raise RuntimeError("nested rings")
+            spec = poly_spec(verts, num, cw)
+        parts.append(spec)
+    big = {"t": "connected", "parts": [parts[0], parts[1]]}
+    island = {"t": "connected", "parts": [parts[2], parts[3]]}
+    return {"t": "disjoint", "parts": [big, island]}, {"family": "nested-rings"}
+
+
 def validate_composite_exact(spec) -> bool:
     """Exact validation of polygonal composites: boundaries pairwise disjoint."""
-    try:
-        curves = spec_curves_exact(spec)
-    except ValueError:
-        return True
-    if not all(O.is_polygonal(c) for c in curves):
-        return True
+    curves = []
+
+    def collect(sp):
+        if sp["t"] in ("connected", "disjoint"):
+            for part in sp["parts"]:
+                collect(part)
+        elif sp["t"] == "poly":
+            curves.extend(spec_curves_exact(sp))
+
+    collect(spec)
     for i in range(len(curves)):
         for j in range(i + 1, len(curves)):
             con = O.polygon_pair_contacts(curves[i], curves[j])
@@ -517,6 +557,8 @@ def random_shape(rng, kind=None, num=None, curved=None, center=(0, 0), size=10.0
             spec, info = random_connected(rng, num, curved, center, size, unbounded=True, nholes=rng.randint(2, 3))
         elif kind == "D":
             spec, info = random_disjoint(rng, num, curved, center, size)
+        elif kind == "N":
+            spec, info = random_nested_rings(rng, num, curved, center, size)
         else:
             raise ValueError(kind)
         if validate_composite_exact(spec):
